@@ -5,15 +5,17 @@ CONSTANTS
  Poll = 2
  Ticks = TRUE
  Defect = "none"
- MaxTime = 3
+ MaxTime = 2
  MaxAtt = 2
  ShutTOs <- TONever
  PCancel = {3}
  Gates = {FALSE}
  DL1 <- DL2
  DL2s <- DLN
+ W2 <- WT
+ LB2 <- LA
  W3 <- WB
- Res <- R3
+ Res <- R2
 INVARIANTS Safety
 PROPERTIES Independent
 VIEW View
